@@ -195,6 +195,8 @@ def run(rep, tier, seed, model_ok=True, effort=1):
     for _ in range((400 if tier == "quick" else 40000) * effort):
         n = r.choice([3, 4, 5, 8, 13, 21, 40])
         lits.append("".join(r.choice(ATOMS if r.random() < 0.5 else list("|.+*?(){}-^$\\ ab1") + ["\\[", "\\]"]) for _ in range(n)))
+    # text that looks like an escape of some other layer (URL-encoded brackets, regex classes spelled out) is literal text too
+    lits += ["%5b", "%5d", "a%5bb%5d", "badge/%5bcalver%5d-", "%5b%5d", "\\[%5b\\]", "[0-9]".replace("[", "\\[").replace("]", "\\]"), "(?:x)", "(?!a)"]
     comp_items, comp_meta, search_items, search_meta = [], [], [], []
     META = set("\\-.+*?{}()|^$")
     for lit in lits:
@@ -228,7 +230,9 @@ def run(rep, tier, seed, model_ok=True, effort=1):
         n_v1 += 1
     rep.count("legacy-engine-literals", n_v1)
     # literals wrapped around real parts
-    wraps = [("vMAJOR", "v12", "MINOR", "34"), ("YYYY", "2024", "0M", "09"), ("BUILD", "1001", "TAG", "beta"), ("", "", "MAJOR.MINOR", "1.2"), ("PATCH", "7", "", "")]
+    wraps = [("vMAJOR", "v12", "MINOR", "34"), ("YYYY", "2024", "0M", "09"), ("BUILD", "1001", "TAG", "beta"), ("", "", "MAJOR.MINOR", "1.2"), ("PATCH", "7", "", ""),
+             # literal text directly after a release tag / before one
+             ("vYYYY.BUILD-TAG", "v2024.1001-beta", "", ""), ("MAJOR.MINOR-TAG", "1.2-rc", "PATCH", "7")]
     for _ in range((300 if tier == "quick" else 4000) * effort):
         n = r.choice([1, 1, 2, 3, 5])
         lit = "".join(r.choice(ATOMS) for _ in range(n))
